@@ -188,4 +188,10 @@ def post_job(job, kept, out):
     out["nondeterministic_pairs"] = reported
 
 
-jobs = c01.jobs
+def jobs(tier, seed):
+    js = []
+    for j in c01.jobs(tier, seed):
+        if j["params"].pop("regrade", False):
+            continue          # C01's graded-twice variants; the second write of one mesh is C12's subject
+        js.append(j)
+    return js
